@@ -15,15 +15,17 @@
        table ids, any common-header length 19..255, any post-header-length table size 35..255, any padding patterns
        in the unused high bits of the last byte of the presence bitmaps, of the rows' NULL bitmaps and of the table
        maps' nullable-columns bitmaps (three arbitrary bytes c_pad_cols / c_pad_null / c_pad_tm);
-     - the oracles ffmt (float formatting), tz (|tz| <= 86400), jsonp (never consulted: no JSON values), and the
-       table mapper mp (any names and signedness; it must know each table and agree on the column count);
+     - the oracles ffmt (float formatting of FLOAT / DOUBLE cells), tz (|tz| <= 86400), efmt ('E' formatting of the
+       doubles inside JSON documents: the JSON printer is Model.Json.print_json efmt, the model of printJSONData, and
+       the denotation renders documents with the same efmt), and the table mapper mp (any names and signedness; it
+       must know each table and agree on the column count);
      - GTID / anonymous GTID / previous-GTIDs / heartbeat / any other ignorable event type, statements of unknown
        kind (SAVEPOINT, GRANT, ...), and repeated format descriptions of the same configuration, between any two
        events;
-     - every column type with valid parameters, every value of the non-JSON types (Spec.Values.wf_value), every
-       NULL / absent-column pattern (>= 1 present column per image), any number of rows per event, write / update /
-       delete; JSON columns may be present but Spec.Values has no JSON value, so their cells are NULL or absent
-       (JSON values are C14);
+     - every column type with valid parameters, every value of every type (Spec.Values.wf_value; a JSON column holds
+       any storable document, VJson d with wf_doc d, whose serialisation fits the column's length bytes - the cell
+       lemma is C14_json_cell), every NULL / absent-column pattern (>= 1 present column per image), any number of
+       rows per event, write / update / delete;
      - transactions closed by XID or COMMIT, rolled-back transactions, autocommitted statements (DDL, SET, DML,
        table map + rows), rotations, keywords in any letter case, any status variables in emission order;
        inside a transaction: any interleaving of table maps, rows events for tables announced earlier in the
@@ -34,7 +36,7 @@
    so the theorem applies to it as is; that its result is the corresponding suffix of the whole history's result is
    C03_resume_exact. *)
 From Coq Require Import String.
-From GB Require Import Base.Prelude Model.Header Model.Events Model.Cell Model.Rbr Model.Streamer.
+From GB Require Import Base.Prelude Model.Header Model.Events Model.Cell Model.Json Model.Rbr Model.Streamer.
 From GB Require Import Spec.EncHeader Spec.Values Spec.EncEvent Spec.Expect Spec.EventSpec Spec.Units Spec.Binlog.
 From GB Require Import Proofs.TableMapProofs Proofs.RowsProofs Proofs.RowsAll Proofs.StreamProofs Proofs.StreamProofs2
                        Proofs.StreamProofs3 Proofs.DecodeProofs.
@@ -44,9 +46,12 @@ Open Scope Z_scope.
 Section Capstone.
 Variable ffmt : Z -> Z -> bytes.
 Variable tz : Z -> Z.
+Variable efmt : Z -> bytes.
 Variable jsonp : bytes -> res bytes.
 Variable mp : mapper.
 Hypothesis tz_bounded : forall v, -86400 <= tz v <= 86400.
+(* the JSON printer is the model of printJSONData, with the same 'E' formatting oracle as the denotation *)
+Hypothesis jsonp_model : jsonp = print_json efmt.
 Let verdict := fun _ : nat => true.
 Notation decode := (decode ffmt tz jsonp mp).
 Notation tables_t := (list (Z * (table_map * tinfo))).
@@ -186,15 +191,15 @@ Proof.
   - destruct Hi as (Wh & Hf & Hlo & Hqf & Hk). apply (seg_one _ tb _ ANop); [exists v; reflexivity| |reflexivity|reflexivity].
     apply decode_wquery_unknown; assumption.
   - destruct Hi as [Wh Hf]. apply (seg_one _ tb _ ANop); [exists v; reflexivity| |reflexivity|reflexivity].
-    apply (decode_ignorable_ev ffmt tz jsonp mp c v tb Wc h 33); [exact Wh|reflexivity|exact Hf].
+    apply (decode_ignorable_ev ffmt tz efmt jsonp mp c v tb Wc h 33); [exact Wh|reflexivity|exact Hf].
   - destruct Hi as [Wh Hf]. apply (seg_one _ tb _ ANop); [exists v; reflexivity| |reflexivity|reflexivity].
-    apply (decode_ignorable_ev ffmt tz jsonp mp c v tb Wc h 34); [exact Wh|reflexivity|exact Hf].
+    apply (decode_ignorable_ev ffmt tz efmt jsonp mp c v tb Wc h 34); [exact Wh|reflexivity|exact Hf].
   - destruct Hi as [Wh Hf]. apply (seg_one _ tb _ ANop); [exists v; reflexivity| |reflexivity|reflexivity].
-    apply (decode_ignorable_ev ffmt tz jsonp mp c v tb Wc h 35); [exact Wh|reflexivity|exact Hf].
+    apply (decode_ignorable_ev ffmt tz efmt jsonp mp c v tb Wc h 35); [exact Wh|reflexivity|exact Hf].
   - destruct Hi as [Wh Hf]. apply (seg_one _ tb _ ANop); [exists v; reflexivity| |reflexivity|reflexivity].
-    apply (decode_ignorable_ev ffmt tz jsonp mp c v tb Wc h 27); [exact Wh|reflexivity|exact Hf].
+    apply (decode_ignorable_ev ffmt tz efmt jsonp mp c v tb Wc h 27); [exact Wh|reflexivity|exact Hf].
   - destruct Hi as (Wh & Hf & Ht). apply (seg_one _ tb _ ANop); [exists v; reflexivity| |reflexivity|reflexivity].
-    apply (decode_ignorable_ev ffmt tz jsonp mp c v tb Wc h typ); [exact Wh|exact Ht|exact Hf].
+    apply (decode_ignorable_ev ffmt tz efmt jsonp mp c v tb Wc h typ); [exact Wh|exact Ht|exact Hf].
 Qed.
 
 Lemma seg_gap g : wf_gap c g -> forall f tb, fmt_ok f -> seg f tb g [] tb.
@@ -207,10 +212,10 @@ Qed.
 (* ------------------------------------------------------------------ *)
 (* 4. statements                                                       *)
 
-Notation abs_stmt := (abs_stmt ffmt tz mp).
-Notation abs_body := (abs_body ffmt tz mp).
-Notation item_stmts := (item_stmts ffmt tz mp).
-Notation abs := (abs ffmt tz mp).
+Notation abs_stmt := (abs_stmt ffmt tz efmt mp).
+Notation abs_body := (abs_body ffmt tz efmt mp).
+Notation item_stmts := (item_stmts ffmt tz efmt mp).
+Notation abs := (abs ffmt tz efmt mp).
 Notation cache_ok := (cache_ok mp).
 
 (* a segment from a state with an announced format to another one whose cache satisfies P *)
@@ -265,11 +270,11 @@ Qed.
 Lemma decode_rows f tb h t r crc :
   fmt_ok f -> wf_table c mp t -> wf_rows c mp t h r crc ->
   lookup_table (td_id t) tb = Some (expect_table_map (c_pad_tm c) t, tinfo_of mp t) ->
-  decode f tb (wire c (WRows h (map fst (td_cols t)) r crc)) = stmt_event (rows_stmt ffmt tz mp t h r).
+  decode f tb (wire c (WRows h (map fst (td_cols t)) r crc)) = stmt_event (rows_stmt ffmt tz efmt mp t h r).
 Proof.
   intros [v ->] (Wt & ti & Hmp & Hl) (Wh & Hf & Hid & Wr) Hlk.
   assert (Hti : tinfo_of mp t = ti) by (unfold tinfo_of; rewrite Hmp; reflexivity). rewrite Hti in *.
-  apply (decode_wrows ffmt tz jsonp mp c v tb Wc tz_bounded h (c_pad_tm c) t ti r crc); assumption.
+  apply (decode_wrows ffmt tz efmt jsonp mp c v tb Wc tz_bounded jsonp_model h (c_pad_tm c) t ti r crc); assumption.
 Qed.
 
 Lemma useg_stmt s : wf_stmt c mp s -> forall f tb, fmt_ok f -> cache_ok tb ->
@@ -280,13 +285,13 @@ Proof.
     set (tb1 := update_table (td_id t) (expect_table_map (c_pad_tm c) t, tinfo_of mp t) tb).
     destruct (decode_map f tb hm t crcm F Hc Whm Fm Wt) as [Dm Hc1]. fold tb1 in Hc1.
     apply (useg_of_seg _ f tb _ _ tb1); [|exact Hc1].
-    change [stmt_event (rows_stmt ffmt tz mp t hr r)] with ([] ++ [] ++ [stmt_event (rows_stmt ffmt tz mp t hr r)]).
+    change [stmt_event (rows_stmt ffmt tz efmt mp t hr r)] with ([] ++ [] ++ [stmt_event (rows_stmt ffmt tz efmt mp t hr r)]).
     apply (seg_cons f tb _ [] tb1).
     { apply (seg_one _ tb _ (ATable (td_id t) (expect_table_map (c_pad_tm c) t) (tinfo_of mp t))); [exact F|exact Dm|reflexivity|reflexivity]. }
     intros f1 F1. apply (seg_app f1 tb1 gap [] tb1).
     { apply seg_gap; assumption. }
     intros f2 F2.
-    apply (seg_one _ tb1 _ (stmt_event (rows_stmt ffmt tz mp t hr r))); [exact F2| |reflexivity|reflexivity].
+    apply (seg_one _ tb1 _ (stmt_event (rows_stmt ffmt tz efmt mp t hr r))); [exact F2| |reflexivity|reflexivity].
     apply decode_rows; try assumption. unfold tb1. apply lookup_update_same.
   - intros Wq f tb F Hc. pose proof F as [v ->].
     apply (useg_one _ _ tb _ (stmt_event (query_stmt q))); try reflexivity; [exact F| |exact Hc].
@@ -327,7 +332,7 @@ Proof.
     apply (useg_one _ _ tb _ (ATable (td_id t) (expect_table_map (c_pad_tm c) t) (tinfo_of mp t))); try reflexivity; [exact F1|exact Dm|].
     cbn [tables_after]. split; [exact Hc1|apply known_ok_announce; assumption].
   - destruct Wi as (Hin & Wr'). destruct (K t Hin) as [Wt Lt].
-    apply (useg_one _ _ tb _ (stmt_event (rows_stmt ffmt tz mp t h r))); try reflexivity; [exact F1| |split; assumption].
+    apply (useg_one _ _ tb _ (stmt_event (rows_stmt ffmt tz efmt mp t h r))); try reflexivity; [exact F1| |split; assumption].
     apply decode_rows; assumption.
   - pose proof F1 as [v ->].
     apply (useg_one _ _ tb _ (stmt_event (query_stmt q))); try reflexivity; [exact F1| |split; assumption].
@@ -401,19 +406,19 @@ Qed.
 (* 6. the whole stream                                                 *)
 
 Lemma serve_decodes b : wf_binlog c mp b ->
-  exists f' tb', decodes_to format_zero [] (serve b) (events (denote ffmt tz mp b)) f' tb'.
+  exists f' tb', decodes_to format_zero [] (serve b) (events (denote ffmt tz efmt mp b)) f' tb'.
 Proof.
   intros (_ & Wfh & Ffk & Wmh & Wv & Wus & Wt). unfold serve.
   set (fk := WRotate (b_fake_h b) (b_fake_name b) (b_fake_pos b) (b_fake_crc b)).
   set (fd := WFormat (b_fmt_h b) (b_version b) (b_fmt_crc b)).
   assert (D1 : decodes_to format_zero [] [fk] [] format_zero []).
   { apply (decodes_one format_zero [] fk ANop); [|reflexivity].
-    apply (decode_fake_rotate ffmt tz jsonp mp c [] [] Wc); assumption. }
+    apply (decode_fake_rotate ffmt tz efmt jsonp mp c [] [] Wc); assumption. }
   assert (D2 : decodes_to format_zero [] [fd] [] (expect_format c (b_version b)) []).
   { apply (decodes_one format_zero [] fd (AFormat (expect_format c (b_version b)))); [|reflexivity].
     apply decode_wformat; assumption. }
   assert (F0 : fmt_ok (expect_format c (b_version b))) by (exists (b_version b); reflexivity).
-  assert (U : useg (expect_format c (b_version b)) [] (units_events (b_units b) ++ b_tail b) (events (denote ffmt tz mp b) ++ [])).
+  assert (U : useg (expect_format c (b_version b)) [] (units_events (b_units b) ++ b_tail b) (events (denote ffmt tz efmt mp b) ++ [])).
   { apply (useg_app cache_ok); [apply useg_units; [assumption|exact F0|apply cache_ok_nil]|].
     intros f1 tb1 F1 Hc1. apply useg_gap; assumption. }
   destruct U as (f' & tb' & D3 & _). exists f', tb'.
@@ -425,8 +430,8 @@ Qed.
 Lemma e2e_fidelity_wc b p :
   wf_binlog c mp b ->
   parse_events ffmt tz jsonp (fun _ => true) mp p (map (wire c) (serve b)) =
-    (snd (spec_run p (denote ffmt tz mp b)),
-     map (fun t => (t, true)) (fst (spec_run p (denote ffmt tz mp b))),
+    (snd (spec_run p (denote ffmt tz efmt mp b)),
+     map (fun t => (t, true)) (fst (spec_run p (denote ffmt tz efmt mp b))),
      OEnd).
 Proof.
   intros W. destruct (serve_decodes b W) as (f' & tb' & G & N & _).
@@ -438,21 +443,22 @@ Qed.
 
 End Capstone.
 
-(* THE CAPSTONE.  For every configuration, mapper, oracle and start position: the bytes a master serves for a
+(* THE CAPSTONE.  For every configuration, mapper, oracles (ffmt, tz, efmt; the JSON printer is the model of
+   printJSONData over efmt) and start position: the bytes a master serves for a
    well-formed binlog make parseEvents deliver exactly the transactions of the units the binlog denotes - one per
    committing unit, in order, each with its statements / row changes (kind, table, timestamps, before / after images
    with every column's name, type code, absent / NULL marker or canonical value text) and its position labels - and
    return the final boundary position and no error. *)
-Theorem e2e_fidelity : forall ffmt tz jsonp mp c b p,
+Theorem e2e_fidelity : forall ffmt tz efmt mp c b p,
   (forall v, -86400 <= tz v <= 86400) ->
   wf_binlog c mp b ->
-  parse_events ffmt tz jsonp (fun _ => true) mp p (map (wire c) (serve b)) =
-    (snd (spec_run p (denote ffmt tz mp b)),
-     map (fun t => (t, true)) (fst (spec_run p (denote ffmt tz mp b))),
+  parse_events ffmt tz (print_json efmt) (fun _ => true) mp p (map (wire c) (serve b)) =
+    (snd (spec_run p (denote ffmt tz efmt mp b)),
+     map (fun t => (t, true)) (fst (spec_run p (denote ffmt tz efmt mp b))),
      OEnd).
 Proof.
-  intros ffmt tz jsonp mp c b p Htz W. pose proof W as (Wc & _).
-  apply e2e_fidelity_wc; assumption.
+  intros ffmt tz efmt mp c b p Htz W. pose proof W as (Wc & _).
+  apply e2e_fidelity_wc; [exact Htz|reflexivity|exact Wc|exact W].
 Qed.
 
 (* ------------------------------------------------------------------ *)
@@ -472,25 +478,25 @@ Proof. induction k as [|k IH]; intros l H; [exact H|]. destruct l; [constructor|
 (* Started at the position reached after the first k units (in particular at the end label of any delivered
    transaction), the stream delivers exactly the transactions of the remaining units, and these are the rest of what
    the whole binlog delivers from p; the final position is the same. *)
-Theorem e2e_fidelity_from : forall ffmt tz jsonp mp c b p k h name pos crc,
+Theorem e2e_fidelity_from : forall ffmt tz efmt mp c b p k h name pos crc,
   (forall v, -86400 <= tz v <= 86400) ->
   wf_binlog c mp b -> wf_whdr h -> fits c (WRotate h name pos crc) ->
-  let us := denote ffmt tz mp b in
+  let us := denote ffmt tz efmt mp b in
   let q := snd (spec_run p (firstn k us)) in
-  parse_events ffmt tz jsonp (fun _ => true) mp q (map (wire c) (serve (serve_from b k h name pos crc))) =
+  parse_events ffmt tz (print_json efmt) (fun _ => true) mp q (map (wire c) (serve (serve_from b k h name pos crc))) =
     (snd (spec_run p us), map (fun t => (t, true)) (fst (spec_run q (skipn k us))), OEnd) /\
   fst (spec_run p us) = fst (spec_run p (firstn k us)) ++ fst (spec_run q (skipn k us)).
 Proof.
-  intros ffmt tz jsonp mp c b p k h name pos crc Htz W Wh Hf us q.
+  intros ffmt tz efmt mp c b p k h name pos crc Htz W Wh Hf us q.
   assert (W' : wf_binlog c mp (serve_from b k h name pos crc)).
   { destruct W as (Wc & _ & _ & Wm & Wv & Wus & Wt). unfold wf_binlog, serve_from.
     cbn [b_fake_h b_fake_name b_fake_pos b_fake_crc b_fmt_h b_version b_fmt_crc b_units b_tail].
     repeat (split; [assumption|]). split; [apply Forall_skipn; exact Wus|exact Wt]. }
-  assert (D : denote ffmt tz mp (serve_from b k h name pos crc) = skipn k us).
+  assert (D : denote ffmt tz efmt mp (serve_from b k h name pos crc) = skipn k us).
   { unfold denote, serve_from, us. cbn [b_units]. unfold denote. rewrite skipn_map. reflexivity. }
   assert (S : spec_run p us = (fst (spec_run p (firstn k us)) ++ fst (spec_run q (skipn k us)), snd (spec_run q (skipn k us)))).
   { rewrite <- (firstn_skipn k us) at 1. apply spec_run_app. }
   split.
-  - rewrite (e2e_fidelity ffmt tz jsonp mp c _ q Htz W'), D, S. reflexivity.
+  - rewrite (e2e_fidelity ffmt tz efmt mp c _ q Htz W'), D, S. reflexivity.
   - rewrite S. reflexivity.
 Qed.
